@@ -83,12 +83,15 @@ Record Hc (sk : list sockst) (ch : option (nat * bool)) (n : nat) (cs : list cob
   hc_chan : chan_ok sk ch n;
   hc_conn : forall c o, nth_error cs c = Some o ->
             nth_error sk (csock o) = Some (if calive o then HandedOver else HandedClosed 1);
-  hc_inj : forall c1 c2 o1 o2, nth_error cs c1 = Some o1 -> nth_error cs c2 = Some o2 -> csock o1 = csock o2 -> c1 = c2
+  hc_inj : forall c1 c2 o1 o2, nth_error cs c1 = Some o1 -> nth_error cs c2 = Some o2 -> csock o1 = csock o2 -> c1 = c2;
+  (* a socket that was handed over belongs to a connection object *)
+  hc_owner : forall i, nth_error sk i = Some HandedOver \/ nth_error sk i = Some (HandedClosed 1) ->
+             exists c o, nth_error cs c = Some o /\ csock o = i
 }.
 
 Lemma Hc_new sk ch n cs : Hc sk ch n cs None -> Hc (sk ++ [Open]) ch n cs (Some (length sk)).
 Proof.
-  intros [Hok Hop Hex Hch Hcn Hin]. split.
+  intros [Hok Hop Hex Hch Hcn Hin How]. split.
   - intros i x. rewrite nth_error_snoc. destruct (Nat.eq_dec i (length sk)); [intros [= <-]; left; auto|apply Hok].
   - intros i. rewrite nth_error_snoc. destruct (Nat.eq_dec i (length sk)) as [->|]; [auto|].
     intros H. destruct (Hop _ H) as [?|?]; [auto|discriminate].
@@ -98,11 +101,12 @@ Proof.
     rewrite nth_error_app1; auto. eapply nth_error_lt; eauto.
   - intros c o H. specialize (Hcn _ _ H). rewrite nth_error_app1; auto. eapply nth_error_lt; eauto.
   - exact Hin.
+  - intros i. rewrite nth_error_snoc. destruct (Nat.eq_dec i (length sk)); [intros [H|H]; discriminate|apply How].
 Qed.
 
 Lemma Hc_close sk ch n cs i : Hc sk ch n cs (Some i) -> Hc (upd sk i close_state) ch n cs None.
 Proof.
-  intros [Hok Hop Hex Hch Hcn Hin]. destruct (Hex i eq_refl) as [Hi Hne]. split.
+  intros [Hok Hop Hex Hch Hcn Hin How]. destruct (Hex i eq_refl) as [Hi Hne]. split.
   - intros j x. rewrite nth_error_upd. destruct (Nat.eq_dec i j) as [<-|].
     + rewrite Hi. cbn. intros [= <-]. right; right; left; auto.
     + apply Hok.
@@ -114,11 +118,12 @@ Proof.
     rewrite nth_error_upd_other; auto. intros <-. apply Hne. reflexivity.
   - intros c o H. specialize (Hcn _ _ H). rewrite nth_error_upd_other; auto. intros E. rewrite <- E, Hi in Hcn. destruct (calive o); discriminate.
   - exact Hin.
+  - intros j. rewrite nth_error_upd. destruct (Nat.eq_dec i j) as [<-|]; [rewrite Hi; cbn; intros [H|H]; discriminate|apply How].
 Qed.
 
 Lemma Hc_watch sk n cs i : Hc sk None n cs (Some i) -> Hc sk (Some (i, true)) n cs None.
 Proof.
-  intros [Hok Hop Hex Hch Hcn Hin]. destruct (Hex i eq_refl) as [Hi Hne]. split; auto.
+  intros [Hok Hop Hex Hch Hcn Hin How]. destruct (Hex i eq_refl) as [Hi Hne]. split; auto.
   - intros j H. destruct (Hop _ H) as [?|E]; [discriminate|]. inversion E; subst. auto.
   - discriminate.
   - cbn in *. auto.
@@ -127,7 +132,7 @@ Qed.
 Lemma Hc_hand sk ch n cs i o : csock o = i -> calive o = true ->
   Hc sk ch n cs (Some i) -> Hc (upd sk i hand_state) ch n (cs ++ [o]) None.
 Proof.
-  intros Ei Ea [Hok Hop Hex Hch Hcn Hin]. destruct (Hex i eq_refl) as [Hi Hne]. split.
+  intros Ei Ea [Hok Hop Hex Hch Hcn Hin How]. destruct (Hex i eq_refl) as [Hi Hne]. split.
   - intros j x. rewrite nth_error_upd. destruct (Nat.eq_dec i j) as [<-|].
     + rewrite Hi. cbn. intros [= <-]. right; left; auto.
     + apply Hok.
@@ -146,11 +151,14 @@ Proof.
     + intros [= <-] H2 E. specialize (Hcn _ _ H2). rewrite <- E, Ei, Hi in Hcn. destruct (calive o2); discriminate.
     + intros H1 [= <-] E. specialize (Hcn _ _ H1). rewrite E, Ei, Hi in Hcn. destruct (calive o1); discriminate.
     + apply Hin.
+  - intros j. rewrite nth_error_upd. destruct (Nat.eq_dec i j) as [<-|N].
+    + intros _. exists (length cs), o. rewrite nth_error_snoc. destruct (Nat.eq_dec (length cs) (length cs)); [auto|congruence].
+    + intros H. destruct (How _ H) as (c & o' & H1 & H2). exists c, o'. rewrite nth_error_app1; [auto|eapply nth_error_lt; eauto].
 Qed.
 
 Lemma Hc_unreg sk n cs i : Hc sk (Some (i, true)) n cs None -> Hc sk (Some (i, false)) (S n) cs (Some i).
 Proof.
-  intros [Hok Hop Hex Hch Hcn Hin]. cbn in Hch. destruct Hch as [Hi Hn]. split; auto.
+  intros [Hok Hop Hex Hch Hcn Hin How]. cbn in Hch. destruct Hch as [Hi Hn]. split; auto.
   - intros j H. destruct (Hop _ H) as [E|?]; [|discriminate]. inversion E; subst. auto.
   - intros j [= <-]. split; auto. discriminate.
   - cbn. lia.
@@ -158,7 +166,7 @@ Qed.
 
 Lemma Hc_reset sk ch n cs : Hc sk ch (S n) cs None -> Hc sk None n cs None.
 Proof.
-  intros [Hok Hop Hex Hch Hcn Hin].
+  intros [Hok Hop Hex Hch Hcn Hin How].
   destruct ch as [[i [|]]|]; cbn in Hch; try (destruct Hch; discriminate); try discriminate.
   assert (n = 0%nat) as -> by lia. split; auto.
   - intros j H. destruct (Hop _ H) as [E|?]; discriminate.
@@ -169,7 +177,7 @@ Qed.
 Lemma Hc_gcclose sk ch n cs c o : nth_error cs c = Some o -> calive o = true ->
   Hc sk ch n cs None -> Hc (upd sk (csock o) conn_close_state) ch n (upd cs c (c_set_alive false)) None.
 Proof.
-  intros Hc0 Ha [Hok Hop Hex Hch Hcn Hin].
+  intros Hc0 Ha [Hok Hop Hex Hch Hcn Hin How].
   pose proof (Hcn _ _ Hc0) as Hs. rewrite Ha in Hs. split.
   - intros j x. rewrite nth_error_upd. destruct (Nat.eq_dec (csock o) j) as [<-|].
     + rewrite Hs. cbn. intros [= <-]. right; right; right; auto.
@@ -187,13 +195,18 @@ Proof.
     + rewrite Hc0. cbn. intros [= <-] H2 E. cbn in E. eapply Hin; eauto.
     + rewrite Hc0. cbn. intros H1 [= <-] E. cbn in E. eapply Hin; eauto.
     + apply Hin.
+  - intros j. rewrite nth_error_upd. destruct (Nat.eq_dec (csock o) j) as [<-|N].
+    + intros _. exists c, (c_set_alive false o). rewrite nth_error_upd_same, Hc0. split; auto; destruct o; auto.
+    + intros H. destruct (How _ H) as (c' & o' & H1 & H2). destruct (Nat.eq_dec c c') as [<-|Nc].
+      * exists c, (c_set_alive false o). rewrite nth_error_upd_same, Hc0. rewrite Hc0 in H1. injection H1 as <-. split; auto; destruct o; auto.
+      * exists c', o'. rewrite nth_error_upd_other; auto.
 Qed.
 
 Lemma Hc_setc sk ch n cs ex c f :
   (forall o, csock (f o) = csock o /\ calive (f o) = calive o) ->
   Hc sk ch n cs ex -> Hc sk ch n (upd cs c f) ex.
 Proof.
-  intros Hf [Hok Hop Hex Hch Hcn Hin]. split; auto.
+  intros Hf [Hok Hop Hex Hch Hcn Hin How]. split; auto.
   - intros c' o'. rewrite nth_error_upd. destruct (Nat.eq_dec c c') as [<-|N]; [|apply Hcn].
     destruct (nth_error cs c) as [o|] eqn:E; cbn; [|discriminate]. intros [= <-].
     destruct (Hf o) as [-> ->]. apply (Hcn _ _ E).
@@ -202,19 +215,23 @@ Proof.
     + destruct (nth_error cs c) as [o|] eqn:E; cbn; [|discriminate]. intros [= <-] H2. destruct (Hf o) as [-> _]. eapply Hin; eauto.
     + destruct (nth_error cs c) as [o|] eqn:E; cbn; [|discriminate]. intros H1 [= <-]. destruct (Hf o) as [-> _]. eapply Hin; eauto.
     + apply Hin.
+  - intros j H. destruct (How _ H) as (c' & o' & H1 & H2). destruct (Nat.eq_dec c c') as [<-|Nc].
+    + exists c, (f o'). rewrite nth_error_upd_same, H1. split; auto. destruct (Hf o') as [-> _]. auto.
+    + exists c', o'. rewrite nth_error_upd_other; auto.
 Qed.
 
 Lemma Hc_map sk ch n cs ex f :
   (forall o, csock (f o) = csock o /\ calive (f o) = calive o) ->
   Hc sk ch n cs ex -> Hc sk ch n (map f cs) ex.
 Proof.
-  intros Hf [Hok Hop Hex Hch Hcn Hin]. split; auto.
+  intros Hf [Hok Hop Hex Hch Hcn Hin How]. split; auto.
   - intros c o'. rewrite nth_error_map. destruct (nth_error cs c) as [o|] eqn:E; cbn; [|discriminate]. intros [= <-].
     destruct (Hf o) as [-> ->]. apply (Hcn _ _ E).
   - intros c1 c2 o1 o2. rewrite !nth_error_map.
     destruct (nth_error cs c1) as [a|] eqn:E1; cbn; [|discriminate].
     destruct (nth_error cs c2) as [b|] eqn:E2; cbn; [|discriminate].
     intros [= <-] [= <-]. destruct (Hf a) as [-> _]. destruct (Hf b) as [-> _]. eapply Hin; eauto.
+  - intros j H. destruct (How _ H) as (c' & o' & H1 & H2). exists c', (f o'). rewrite nth_error_map, H1. split; auto. destruct (Hf o') as [-> _]. auto.
 Qed.
 
 (* ------------------------------------------------------------------ the invariant on states *)
@@ -478,6 +495,7 @@ Proof.
   - discriminate.
   - intros [|c] o; discriminate.
   - intros [|c1] c2 o1; discriminate.
+  - intros [|i] [H|H]; discriminate.
 Qed.
 
 Lemma step_H s o s' ev : Hs None s -> step s o = Ok s' ev -> Hs None s'.
@@ -530,3 +548,49 @@ Proof.
   intros l s ev R c o Hc0. pose proof (run_H l _ _ _ init_H R) as [_ _ _ _ Hcn Hin].
   split; [apply (Hcn _ _ Hc0)|]. intros c' o' H' E. eapply Hin; eauto.
 Qed.
+
+(* a socket that was handed over belongs to a connection object (so "handed over" is never a way to lose a descriptor) *)
+Theorem handed_has_owner : forall l s ev, run init l = Some (s, ev) ->
+  forall i, nth_error (socks s) i = Some HandedOver \/ nth_error (socks s) i = Some (HandedClosed 1) ->
+  exists c o, nth_error (conns s) c = Some o /\ csock o = i.
+Proof. intros l s ev R. pose proof (run_H l _ _ _ init_H R) as H. destruct H. auto. Qed.
+
+(* ------------------------------------------------------------------ G: the guards of the anchored decisions, regenerated from
+   the source, are the tests the model makes: each model function equals itself re-assembled around the generated guard *)
+Definition startInLoop_src (s : st) : M :=
+  if negb (kstate_eqb (k_state s) KDisconnected) then None
+  else if Connector_start_guard (k_connect s) then connect_ s else ret s.
+Definition retry_src (s : st) (i : nat) : M :=
+  bind (do_close s i) (fun s =>
+  let s := set_k_state s KDisconnected in
+  if Connector_retry_guard (k_connect s) then
+    let d := if Connector_retry_arms_before_update then k_delay s else Connector_retry_next (k_delay s) in
+    Some (set_k_delay (set_timers s (timers s ++ [(now s + d, TRetry)])) (Connector_retry_next (k_delay s)), [EvArm d])
+  else ret s).
+Definition handleWrite_src (s : st) (err : Z) (selfc : bool) : M :=
+  if kstate_eqb (k_state s) KConnecting then
+    match removeAndResetChannel s with
+    | None => None
+    | Some (s, i) =>
+        if negb (err =? 0) then retry s i
+        else if selfc then retry s i
+        else
+          let s := set_k_state s KConnected in
+          if Connector_handover_guard (k_connect s) then newConnection s i else do_close s i
+    end
+  else if kstate_eqb (k_state s) KDisconnected then ret s else None.
+Definition removeConnection_src (s : st) (c : nat) : M :=
+  if negb (alive s) then None else
+  match connection s with
+  | Some c' =>
+      if negb (c' =? c)%nat then None else
+      let s := enq (set_connection s None) (FConnDestroyed c) in
+      if TcpClient_reconnect_guard (c_retry s) (c_connect s) then restart s else ret s
+  | None => None
+  end.
+Lemma G_guards :
+  (forall s, startInLoop s = startInLoop_src s) /\
+  (forall s i, retry s i = retry_src s i) /\
+  (forall s e b, handleWrite s e b = handleWrite_src s e b) /\
+  (forall s c, removeConnection s c = removeConnection_src s c).
+Proof. repeat split; intros; reflexivity. Qed.
